@@ -2,6 +2,12 @@
 """Print the prompt given to a fresh sub-agent that seeds a property-breaking change (no /verif content)."""
 import json, sys
 pid, wt = sys.argv[1], sys.argv[2]
+L1, L2 = (sys.argv[3], sys.argv[4]) if len(sys.argv) > 4 else ("a", "b")
+import glob, os
+earlier = []
+for d in sorted(glob.glob("/verif/seeded/%s-*/meta.json" % pid)):
+    earlier.append("   - " + json.load(open(d))["needs_to_manifest"][:260])
+earlier_txt = ("\n\nEarlier rounds of this exercise already produced changes that manifest under the following conditions; yours must use DIFFERENT mechanisms, code sites and triggering conditions than these:\n" + "\n".join(earlier)) if earlier and L1 != "a" else ""
 p = [json.loads(l) for l in open('/verif/properties.jsonl') if json.loads(l)['id'] == pid][0]
 print(f"""You are helping test a verification effort for the Rust project garnish-lang/garnish-core (a small scripting language: lexer, parser, bytecode builder, stack-based runtime over a pluggable data trait `GarnishData`, with two data implementations `SimpleGarnishData` and `BasicGarnishData`).
 
@@ -17,10 +23,10 @@ Here is a semantic property that the code base is supposed to satisfy:
 YOUR TASK: produce TWO different, realistic source changes to garnish-core (each a small patch of the kind a well-meaning refactor, optimisation or bug-fix attempt could introduce) that each BREAK this property, while the code still compiles and the existing test suite still passes exactly as before. Important requirements:
 
 1. Each change must need something SPECIFIC to manifest: an unusual input, a particular combination of operand types/values, a multi-step sequence of operations, a boundary value, or two cooperating code sites that each look fine alone. Do NOT make changes that ordinary use or the simplest example would expose at once (e.g. do not break `1 + 2`).
-2. The two changes must be in different places / break the property in different ways.
+2. The two changes must be in different places / break the property in different ways.{earlier_txt}
 3. The existing test suite must still pass with each change applied alone. The suite has 39 tests that already fail at baseline; run `cd {wt} && cargo test --workspace --offline --no-fail-fast 2>&1 | grep -E "^test result|FAILED|failed" ` before changing anything to learn the baseline failures, and confirm that with your change exactly the same set of tests fails (no new failures). Do not edit or delete any existing test.
-4. For each change write a demonstration: a NEW Rust integration test file placed at {wt}/tests/tests/seeded_demo_<a|b>.rs (the `tests` workspace crate `garnish_lang_tests` depends on `garnish_lang`, which re-exports everything: `garnish_lang::compiler::{{lex::lex, parse::parse, build::build}}`, `garnish_lang::simple::{{SimpleGarnishData, BasicGarnishData, NoOpCompanion, execute_current_instruction, SimpleRuntimeState, SimpleNumber, ops}}`, `garnish_lang::{{GarnishData, GarnishNumber, Instruction, GarnishDataType}}`; look at {wt}/tests/tests/runtime_impls.rs and {wt}/tests/src/main.rs for how programs are compiled and run). The demonstration test must FAIL with the change applied and PASS without it (verify both: use `git stash` or apply/revert the patch). Run it with `cargo test -p garnish_lang_tests --offline --test seeded_demo_a`.
-5. Deliver, in the directory {wt}/SEEDED/ : `a.diff` and `b.diff` (each produced with `git diff` containing ONLY the source change, not the demo test), `seeded_demo_a.rs` and `seeded_demo_b.rs` (copies of the demonstration tests), and `notes.md` describing for each change: what it breaks, what specific condition is needed for it to manifest, and the exact commands you ran to confirm (demo fails with change / passes without; suite unchanged).
+4. For each change write a demonstration: a NEW Rust integration test file placed at {wt}/tests/tests/seeded_demo_<{L1}|{L2}>.rs (the `tests` workspace crate `garnish_lang_tests` depends on `garnish_lang`, which re-exports everything: `garnish_lang::compiler::{{lex::lex, parse::parse, build::build}}`, `garnish_lang::simple::{{SimpleGarnishData, BasicGarnishData, NoOpCompanion, execute_current_instruction, SimpleRuntimeState, SimpleNumber, ops}}`, `garnish_lang::{{GarnishData, GarnishNumber, Instruction, GarnishDataType}}`; look at {wt}/tests/tests/runtime_impls.rs and {wt}/tests/src/main.rs for how programs are compiled and run). The demonstration test must FAIL with the change applied and PASS without it (verify both: use `git stash` or apply/revert the patch). Run it with `cargo test -p garnish_lang_tests --offline --test seeded_demo_{L1}`.
+5. Deliver, in the directory {wt}/SEEDED/ : `{L1}.diff` and `{L2}.diff` (each produced with `git diff` containing ONLY the source change, not the demo test), `seeded_demo_{L1}.rs` and `seeded_demo_{L2}.rs` (copies of the demonstration tests), and `notes.md` describing for each change: what it breaks, what specific condition is needed for it to manifest, and the exact commands you ran to confirm (demo fails with change / passes without; suite unchanged).
 6. When finished, leave the worktree with NO change applied to tracked source files (revert them), keeping only the SEEDED/ directory and the demo test files. Keep build output in {wt}/target (it will be deleted by the caller).
 
 Be careful and concrete; verify everything by actually running it. Your final message should summarise the two changes in a few lines.""")
